@@ -67,7 +67,7 @@ inline ApiCase gen_normalize(const MODULE* mod, NormShape s, const char* cfg) {
   uint64_t tmpb = s.variant == 0 ? vec_znx_normalize_base2k_tmp_bytes(mod)
                 : s.variant == 1 ? vec_znx_big_normalize_base2k_tmp_bytes(mod) : vec_znx_big_range_normalize_base2k_tmp_bytes(mod);
   int it = c.add("tmp", R_SCRATCH, tmpb);
-  for (size_t e = 0; e < ae; ++e) put_i64(c.bufs[ia].init, e, norm_value(s, e));
+  for (size_t e = 0; e < ae; ++e) put_i64(c.bufs[ia].init, e, (((s.rs + s.as) & 1) && e % s.asl >= N) ? 0 : norm_value(s, e));  // every other shape: zero stride padding
   if (s.alias) c.bufs[ia].alias_of = ir;
   Buf& R = c.bufs[ir];
   std::vector<i128> limbs(a_eff), dig;
@@ -113,6 +113,7 @@ inline ApiCase gen_dft(const MODULE* mod, MODULE_TYPE t, DftShape s, const char*
     for (size_t e = 0; e < ae; ++e) { int64_t v = dft_in_value(t, e); if (t == FFT64 && e / s.asl == 1 && e % s.asl < N) v = ((int64_t)(e % 7) + 1) * ((e & 1) ? -1 : 1) * (INT64_C(1) << 32);
       if (t == NTT120 && e / s.asl == 1 && e % s.asl < N) v = (v >> 32) * (INT64_C(1) << 32);
       // limb 2 (mod 4): zero except its LAST coefficient; limb 3 (mod 4): zero except its FIRST one (sparse rows: a "this row is zero" test must look at every coefficient)
+      if (s.asl && e % s.asl >= N && ((s.rs + s.as) & 1)) v = 0;  // every other shape: zero stride padding
       if (s.asl && e % s.asl < N && (e / s.asl) % 4 == 2 && e % s.asl != N - 1) v = 0;
       if (s.asl && e % s.asl < N && (e / s.asl) % 4 == 3 && e % s.asl != 0) v = 0;
       put_i64(c.bufs[ia].init, e, v); }
